@@ -116,10 +116,9 @@ func (hc *httpCache) Get() (status Status, response *HTTPResponse) {
 		// TODO 后续再考虑是否需要添加timeout（proxy部分有超时，因此暂时可不添加)
 		<-done
 		// 完成后重新获取当前状态与响应
-		// 此时状态只可能是hit for pass 或者 hit
-		// 而此两种状态的数据缓存均不会立即失效，因此可以从hc中获取
-		status = hc.status
-		response = hc.response
+		// 唤醒后缓存有可能已再次过期（并已由其它请求重新fetching），
+		// 因此需要在锁内重新判断，不能直接读取hc.status与hc.response
+		return hc.Get()
 	}
 	return
 }
